@@ -53,6 +53,10 @@ Lemma default_config_tie :
   /\ c_prop_sysexit default_config = Vinegar.prop_sysexit VinegarTie.default_sflags.
 Proof. repeat split; cbn; tauto. Qed.
 
+(* netref.class_factory reads a peer-named class out of the module's own __dict__ (no module-level __getattr__ hook runs) *)
+Lemma class_lookup_tie : Gen_handlers.class_lookup_mode = c_cls_mode default_config.
+Proof. reflexivity. Qed.
+
 (* the generated table never pickles outside the allow_pickle guard *)
 Lemma handlers_guarded : table_pk default_config Gen_handlers.handlers.
 Proof. apply table_pkb_sound. vm_compute. reflexivity. Qed.
